@@ -52,6 +52,9 @@ def check(repo: Repo, rep, tier):
     # re-wraps code outside the snapshot() arguments
     one_mode(repo, rep)
     mode_table(repo, rep)
+    from .C01 import import_step
+
+    import_step(repo, rep)
 
 
 def edit_calls(repo: Repo):
@@ -526,6 +529,16 @@ def import_position(repo: Repo, rep):
                 )
             else:
                 rep.ok("R-IMPORT-POSITION", f, lp, "every module-level statement is looked at")
+    # the same scan written as `return any(<test> for node in <tree>.body)`: total by construction (no filter on the generator)
+    for f in m.funcs.values():
+        for c in [x for x in body_nodes(f.node) if isinstance(x, ast.Call) and norm(x.func) == "any" and x.args and isinstance(x.args[0], (ast.GeneratorExp, ast.ListComp))]:
+            g_ = c.args[0].generators[0]
+            if "ImportFrom" in norm(c.args[0].elt) and isinstance(g_.iter, ast.Attribute) and g_.iter.attr == "body":
+                n += 1
+                if g_.ifs:
+                    rep.violation("R-IMPORT-POSITION", f, c, f"{f.qualname} filters the module-level statements it scans for an existing import (`{short(g_.ifs[0], 40)}`)", construct=f"{f.qualname}:scan-left-early")
+                else:
+                    rep.ok("R-IMPORT-POSITION", f, c, "every module-level statement is looked at (any() over the body)")
     rep.floor("R-IMPORT-POSITION", "import scans that answer True", n, 1)
     f = repo.func("_find_external.py::ensure_import")
     cfg = cfg_of(f)
